@@ -14,7 +14,8 @@
    interleaving registrations keeps both); the third is the API's (each
    RegisterCallback creates a fresh handle). *)
 From Coq Require Import List NArith Bool.
-From Dials Require Import Base.Outcome Core.CbMgr Core.Monitor Core.CbMgrProofs Core.MonitorProofs.
+From Dials Require Import Base.Outcome Core.CbMgr Core.Monitor Core.System Core.CbMgrProofs Core.MonitorProofs
+  Core.SystemProofs Core.QueueProofs.
 Import ListNotations.
 Open Scope N_scope.
 
@@ -110,6 +111,74 @@ Theorem monitor_events_well_formed : forall (cfg sv : Type) (stack : list sv -> 
   last_announced (fst cur) (submits_of (trace stack verify p cur st ins)) <= fst (final_cur stack verify p cur st ins).
 Proof. exact @submitted_events_wf_l. Qed.
 
+(* ---- the whole system, every schedule (monitor, callback goroutine, API
+   calls, cancellations, drops on overflow) ---- *)
+
+(* callbacks_serialized: in the history callback entries and returns
+   alternate: a callback is entered only after every earlier one returned *)
+Theorem callbacks_serialized : forall (cfg sv : Type) (stack : list sv -> option cfg) (verify : cfg -> bool)
+    (p : params) (on_new on_err : bool) (cbcap : N) (inits : list sv) (watching : list bool)
+    (s0 : sys cfg sv) (ls : list (label sv)) (s : sys cfg sv),
+  snd (sys_init stack verify p inits watching) = Ok s0 ->
+  run stack verify p on_new on_err cbcap s0 ls = Some s ->
+  call_state false (s_log s) = Some (in_call (s_cb s)).
+Proof. exact @callbacks_serialized_l. Qed.
+
+(* cbch is FIFO, and everything the callback goroutine has done so far is a
+   prefix of the fold cb_run over the events it has taken: the theorems above
+   apply to the real queue content *)
+Theorem callback_history_is_fold : forall (cfg sv : Type) (stack : list sv -> option cfg) (verify : cfg -> bool)
+    (p : params) (on_new on_err : bool) (cbcap : N) (inits : list sv) (watching : list bool)
+    (s0 : sys cfg sv) (ls : list (label sv)) (s : sys cfg sv),
+  snd (sys_init stack verify p inits watching) = Ok s0 ->
+  run stack verify p on_new on_err cbcap s0 ls = Some s ->
+  enq_of (s_log s) = taken_of (s_log s) ++ s_cbq s /\
+  exists rest, cb_hist (s_log s) ++ rest = outs on_new on_err cb_init (taken_of (s_log s)).
+Proof. exact @callback_history_is_fold_l. Qed.
+
+(* whatever is in the queue is well-formed with strictly increasing serials,
+   whatever was dropped on overflow and however registrations interleave *)
+Theorem queue_well_formed : forall (cfg sv : Type) (stack : list sv -> option cfg) (verify : cfg -> bool)
+    (p : params) (on_new on_err : bool) (cbcap : N) (inits : list sv) (watching : list bool)
+    (s0 : sys cfg sv) (ls : list (label sv)) (s : sys cfg sv),
+  snd (sys_init stack verify p inits watching) = Ok s0 ->
+  run stack verify p on_new on_err cbcap s0 ls = Some s ->
+  inv_wf s /\ inv_q on_new on_err s.
+Proof. exact @queue_well_formed_l. Qed.
+
+Theorem sys_callbacks_in_install_order : forall (cfg sv : Type) (stack : list sv -> option cfg) (verify : cfg -> bool)
+    (p : params) (on_new on_err : bool) (cbcap : N) (inits : list sv) (watching : list bool)
+    (s0 : sys cfg sv) (ls : list (label sv)) (s : sys cfg sv),
+  snd (sys_init stack verify p inits watching) = Ok s0 ->
+  run stack verify p on_new on_err cbcap s0 ls = Some s ->
+  sorted_above 0 (global_news (cb_hist (s_log s))).
+Proof. exact @sys_callbacks_in_install_order_l. Qed.
+
+Theorem sys_old_is_predecessor : forall (cfg sv : Type) (stack : list sv -> option cfg) (verify : cfg -> bool)
+    (p : params) (on_new on_err : bool) (cbcap : N) (inits : list sv) (watching : list bool)
+    (s0 : sys cfg sv) (ls : list (label sv)) (s : sys cfg sv),
+  snd (sys_init stack verify p inits watching) = Ok s0 ->
+  run stack verify p on_new on_err cbcap s0 ls = Some s ->
+  (forall h old new, In (OInv (InvUser h old (Some new) false)) (cb_hist (s_log s)) -> fst old + 1 = fst new) /\
+  (forall old new, In (OInv (InvNewGlobal old new)) (cb_hist (s_log s)) -> fst old + 1 = fst new) /\
+  (forall h old cu, ~ In (OInv (InvUser h old None cu)) (cb_hist (s_log s))).
+Proof. exact @sys_old_is_predecessor_l. Qed.
+
+(* partial: reg_once for the queue content is a hypothesis here (the API makes a
+   fresh handle per RegisterCallback; that this reaches the queue at most once
+   is not mechanised) *)
+Theorem sys_never_stale_partial : forall (cfg sv : Type) (stack : list sv -> option cfg) (verify : cfg -> bool)
+    (p : params) (on_new on_err : bool) (cbcap : N) (inits : list sv) (watching : list bool)
+    (s0 : sys cfg sv) (ls : list (label sv)) (s : sys cfg sv) (h : N),
+  snd (sys_init stack verify p inits watching) = Ok s0 ->
+  run stack verify p on_new on_err cbcap s0 ls = Some s ->
+  reg_once h (enq_of (s_log s)) ->
+  match first_reg h (taken_of (s_log s)) with
+  | Some tok => sorted_above (tok_serial tok) (deliveries h (cb_hist (s_log s)))
+  | None => deliveries h (cb_hist (s_log s)) = []
+  end.
+Proof. exact @sys_never_stale_partial_l. Qed.
+
 Print Assumptions never_stale.
 Print Assumptions catchup_iff.
 Print Assumptions none_after_unregister.
@@ -120,3 +189,9 @@ Print Assumptions global_old_is_predecessor.
 Print Assumptions callbacks_in_install_order.
 Print Assumptions user_new_not_nil.
 Print Assumptions monitor_events_well_formed.
+Print Assumptions callbacks_serialized.
+Print Assumptions callback_history_is_fold.
+Print Assumptions queue_well_formed.
+Print Assumptions sys_callbacks_in_install_order.
+Print Assumptions sys_old_is_predecessor.
+Print Assumptions sys_never_stale_partial.
